@@ -223,7 +223,7 @@ def one(ctx, rng, ninputs):
 
 def plan(tier, seed):
     quick = tier == "quick"
-    return {"nshards": 16, "params": {"soft_s": 1500 if quick else 5400, "nprograms": 150 if quick else 1800, "ninputs": 6 if quick else 14}, "hard_timeout_s": 2700 if quick else 9000}
+    return {"nshards": 16, "params": {"soft_s": 1500 if quick else 5400, "nprograms": 150 if quick else 600, "ninputs": 6 if quick else 10}, "hard_timeout_s": 2700 if quick else 9000}
 
 
 def shard(ctx):
